@@ -326,6 +326,64 @@ def retry_case(case):
     return viol, obs
 
 
+def handshake_fault_case(case):
+    """C02 at API level, handshake requests: a write fault hits the n-th write of the first
+    connection while init() runs its six-step handshake (each request is three writes), the
+    next connection comes after `lat` seconds (optionally after a refusal).  Handshake and
+    refresh requests are connected-only and never retried: no request frame (identified by its
+    exact bytes incl. packet id) may be put on the wire twice, whatever happens next.
+    Returns (violations, obs)."""
+    gen = case["gen"]
+    viol, obs, out = [], {}, {}
+
+    async def main(loop, net, log):
+        net.script.append(("accept", 0.0, case["write"]))
+        if case.get("refuse"):
+            net.script.append(("refuse", 0.0))
+        net.script.append(("accept", case["lat"]))
+        w = ApiWorld(gen, loop, net, log)
+        out["ret"] = await w.init()
+        await asyncio.sleep(10.0)
+        await quiesce(loop)
+        out["attempts"] = frame_attempts(gen, log, 0)
+        out["conns"] = len(net.conns)
+        await w.at.shutdown()
+
+    _, log, st = H.run(main)
+
+    def v(mech, **d):
+        viol.append({"mechanism": mech, "detail": dict(d, case=case), "log": H.log_slice(log, 40)})
+
+    if st != "ok" or "attempts" not in out:
+        v("api-retry-scenario-did-not-finish", status=st)
+        return viol, obs
+    att = out["attempts"]
+    hit = [a for a in att if a["fault"]]
+    if not hit or out["conns"] < 2:
+        obs["fault_missed_message"] = 1
+        return viol, obs
+    first = hit[0]
+    again = [a for a in att if a is not first and a["seq"] > first["seq"]
+             and same_message(a, first)]
+    kind = first["cmd"]["kind"] if first["cmd"] else "truncated"
+    if again:
+        v("connected-only-request-transmitted-again-after-write-fault", kind=kind,
+          first=(first["t"], first["conn"]), again=[(a["t"], a["conn"]) for a in again])
+    else:
+        obs["handshake_request_not_resent"] = 1
+    # and no complete request frame at all is on the wire twice
+    seen = {}
+    for a in att:
+        if a["complete"]:
+            seen.setdefault(a["raw"], []).append((a["t"], a["conn"]))
+    dup = {k.hex(): x for k, x in seen.items() if len(x) > 1}
+    if dup:
+        v("request-frame-on-the-wire-twice", frames=dup)
+    obs["faults_hit_inflight"] = 1
+    obs["api_commands_classified"] = 1
+    return viol, obs
+
+
 # ------------------------------------------------------------ model-fed world
 
 class ModelWorld(ApiWorld):
